@@ -1,4 +1,5 @@
 """Harness and property tables."""
+import os
 
 TRUSTED_BASE = [
     "platform port model /verif/contracts/v_port_model.c (executable specification of lltd_port_*; assumption A1)",
@@ -69,7 +70,7 @@ H("derive", src="h_derive.c", props=["C11"], enforce=["derive_session_event"],
   unwind=8, unwindset={"derive_session_event.0": 242, "h_derive.0": 242, "session_table_find.0": 17}, must_reach=["end", "reset", "present", "absent", "other"],
   shards=6, bounded="station counts 0..240 (the property's quantifier range) by complete unwinding; counts above are the C01 known finding")
 H("derive_oob", src="h_derive.c", props=["C01"], enforce=["derive_session_event"], unwind=8,
-  unwindset={"derive_session_event.0": 100, "h_derive_oob.0": 580}, defines=["OOB_CAP=576"], no_native=False,
+  unwindset={"derive_session_event.0": 100, "h_derive_oob.0": 580}, defines=["OOB_CAP=576"], no_native=False, no_second_pass=True,   # the failed fatal check here IS the known finding
   unwind_props={"derive_session_event.0": ["C01"]})
 
 # ---------------------------------------------------------------- C12 / C14 / C16 tick and mapping timers
@@ -96,6 +97,15 @@ H("parse_emit_strict", src="h_emit.c", props=_EMIT_PROPS, enforce=["parseEmit"],
   unwind=10, unwindset={"parseEmit.0": 10}, defines=["V_MTU_FIXED=576"], defines_quick=["V_STRICT_N=4"], defines_thorough=["V_STRICT_N=8"],
   must_reach=["end", "tx"], timeout_thorough=3000,
   bounded="exact-count / order / per-frame content clause for n = 1..4 descriptors (thorough: 1..8), MTU fixed to 576; the general harness covers every count for the bound clause")
+for _m, _cap in ((76, 3), (83, 3), (62, 2)):
+    H("parse_emit_strict_mtu%d" % _m, src="h_emit.c", fn="h_parse_emit_strict", props=_EMIT_PROPS, enforce=["parseEmit"],
+      unwind=10, unwindset={"parseEmit.0": 10}, defines=["V_MTU_FIXED=%d" % _m, "V_SMALL_MTU=1", "V_STRICT_N=%d" % _cap], must_reach=["end", "tx"],
+      unwind_props={"parseEmit.0": ["C06", "C01"]},
+      bounded="small-frame instance MTU=%d: a maximum-size Emit (%d descriptors, (MTU-34) mod 14 = %d) is reachable; code uniform in MTU" % (_m, _cap, (_m - 34) % 14))
+    H("parse_emit_mtu%d" % _m, src="h_emit.c", fn="h_parse_emit", props=_EMIT_PROPS + ["C18"], enforce=["parseEmit"], replace=["sendProbeMsg"], safety_props=["C18"],
+      unwind=8, unwindset={"parseEmit.0": 8}, defines=["V_MTU_FIXED=%d" % _m, "V_SMALL_MTU=1"], unwind_props={"parseEmit.0": ["C06", "C01"]},
+      bounded="small-frame instance MTU=%d, every declared count; code uniform in MTU" % _m)
+_EMIT_SMALL = ["parse_emit_strict_mtu76", "parse_emit_strict_mtu83", "parse_emit_strict_mtu62", "parse_emit_mtu76", "parse_emit_mtu83", "parse_emit_mtu62"]
 # (an MTU-1500 instance of parse_emit - 105 unwound iterations of the replaced callee - ran out of memory at the 12 object bits it needs; not run)
 
 # ---------------------------------------------------------------- lltdBlock.c: observation path (C07 / C19)
@@ -130,11 +140,11 @@ H("parse_qlt", src="h_large_tlv.c", props=_LT, enforce=["parseQueryLargeTlv"], u
 H("c08_reassembly", src="h_large_tlv.c", props=["C08"], unwind=8, defines=["V_LIST_MAX=3"])
 
 # ---------------------------------------------------------------- lltdBlock.c: dispatcher
-H("parse_frame", src="h_parse_frame.c", props=["C05", "C09", "C17", "C03", "C02", "C19", "C18", "C01", "C07"],
+H("parse_frame", src="h_parse_frame.c", props=["C05", "C09", "C17", "C03", "C02", "C19", "C18", "C01", "C07", "C06", "C08", "C10"],
   replace=["answerHello", "parseEmit", "parseQuery", "parseQueryLargeTlv"],     # parseProbe is inlined (a replaced contract that creates a list node lost the node's contents after the call)
   unwind=24, unwindset={"v_build_state.0": 50, "lltd_state_for_iface.0": 4, "lltd_state_clear_seen_probes.0": 8, "parseProbe.0": 8},
   defines=["V_MTU_FIXED=576"], defines_quick=["V_LIST_MAX=2", "LLTD_SEE_LIST_MAX=2"], defines_thorough=["V_LIST_MAX=4", "LLTD_SEE_LIST_MAX=4"],
-  must_reach=["end", "absent-fail", "absent-ok", "foreign", "accept", "reject", "reset"], shards=8, mem_est_gb=6,
+  must_reach=["end", "absent-fail", "absent-ok", "foreign", "accept", "reject", "reset", "emit", "probe"], shards=8, mem_est_gb=6,
   bounded="records of at most 2 interfaces in the global list; observation lists of at most 2 (thorough 4) nodes in the dispatcher harness, with the cap LLTD_SEE_LIST_MAX compiled to the same value; MTU fixed to 576")
 
 H("state_for_iface", src="h_state.c", props=["C09", "C17", "C18", "C19"], enforce=["lltd_state_for_iface"], unwind=8,
@@ -149,6 +159,8 @@ H("tlv_writers", src="h_tlv.c", props=["C04", "C02", "C01", "C17"], unwind=8,
            "setIPv6TLV", "setWifiMaxRateTLV", "setPerfCounterTLV", "setLinkSpeedTLV", "setWifiRssiTLV", "setIconImageTLV", "setHostnameTLV",
            "setSupportInfoTLV", "setFriendlyNameTLV", "setHardwareIdTLV", "setQosCharacteristicsTLV"],
   unwindset={"h_tlv_writers.0": 162, "h_tlv_writers.1": 162, "v_copy_name.0": 42, "lltd_port_get_hw_id.0": 66, "lltd_port_get_ipv6_address.0": 18, "lltd_port_get_bssid.0": 8}, shards=8, must_reach=["end", "hostname", "rssi"])
+H("tlv_determinism", src="h_tlv.c", props=["C02"], unwind=8, shards=4, must_reach=["end", "bssid-unavailable"], no_native=True,
+  unwindset={"h_tlv_determinism.0": 162, "h_tlv_determinism.1": 162, "h_tlv_determinism.2": 162, "v_copy_name.0": 42, "lltd_port_get_hw_id.0": 66, "lltd_port_get_ipv6_address.0": 18, "lltd_port_get_bssid.0": 8})
 H("wire_headers", src="h_tlv.c", props=["C02", "C03", "C01", "C11"], unwind=8, unwindset={"h_wire_headers.0": 66, "h_wire_headers.1": 66, "h_wire_headers.2": 66, "h_wire_headers.3": 66})
 import copy as _copy
 _twbe = _copy.deepcopy(HARNESS["tlv_writers"]); _twbe.update(name="tlv_writers_be", cc_flags=["--big-endian"], cbmc_flags=["--big-endian"], no_native=True,
@@ -177,6 +189,11 @@ for hl in _HOSTLENS["thorough"]:
 # "wireless properties iff Wi-Fi" is therefore decided per writer only (tlv_writers: setWirelessTLV / setBSSIDTLV produce
 # nothing iff the platform reports no Wi-Fi / no BSSID) - see DESIGN.md section 4, C04.
 _W1 = _hello(1, 7, 40, ["never"])
+# GATE instance: wired AND wireless, every attribute tuple and every name length symbolic - the writers abstracted by the presence /
+# length part of their own proved contracts (see h_hello.c); decides which writers answerHello calls under which platform answers.
+H("hello_gate", src="h_hello.c", fn="h_answer_hello", props=["C04", "C02", "C03", "C01", "C18", "C19", "C17"], enforce=["answerHello"], unwind=8,
+  unwindset={"v_build_state.0": 50}, defines=["V_HELLO_GATE=1", "V_TXCAP=256", "V_LIST_MAX=3"], must_reach=["end", "tx", "wireless", "wired"], shards=8,
+  bounded="property writers abstracted to (presence, legal length, header bytes) as their contracts state; transmit buffer modelled with a constant capacity of 256 bytes")
 
 # ---------------------------------------------------------------- platform layer / embedded entry point / closure
 import closure
@@ -189,7 +206,19 @@ H("esp32_frame", src="h_esp32.c", props=["C01", "C18"], unwind=8, safety_props=[
   must_reach=["end", "handled", "short", "degraded"], no_native=True,
   bounded="told lengths 0..40 (the header guard is at 32); the buffer object has exactly the told length")
 
-_HANDLERS = ["send_probe", "parse_emit", "parse_emit_strict", "parse_probe", "parse_query", "parse_query_mtu60", "parse_query_mtu72",
+# ---------------------------------------------------------------- Linux embedded daemon glue (assumption A4 of the core proofs becomes an obligation)
+_LD_US = {"strncpy.0": 18, "strlen.0": 6, "strcpy.0": 6, "strcmp.0": 6, "listInterfaces.0": 4, "listInterfaces.1": 4, "getifaddrs.0": 4,
+          "lltd_embedded_main.0": 3, "lltd_embedded_main.1": 4, "lltd_embedded_main.2": 3, "lltd_embedded_main.3": 4, "v_ioctl.0": 8}
+H("linux_fill", src="h_linux_daemon.c", props=["C01", "C04", "C18"], enforce=["fillInterfaceDetails"], unwind=12, unwindset=_LD_US, safety_props=["C18"],
+  cbmc_flags=["--malloc-may-fail", "--malloc-fail-null"], must_reach=["end", "ok", "failed"], no_native=True,
+  bounded=None)
+H("linux_loop", src="h_linux_daemon.c", props=["C01", "C17"], enforce=["lltdLoop"], replace=["parseFrame", "switch_state_mapping", "switch_state_session"],
+  loops=True, loops_file=os.path.join(os.path.dirname(os.path.dirname(os.path.abspath(__file__))), "harness", "h_linux_daemon.loops.json"),
+  unwind=12, unwindset=_LD_US, must_reach=["end"], no_native=True, loop_contracts=["lltdLoop.0"])
+# (a harness of the daemon's main - the per-interface start sequence up to pthread_create, with the obligation "the thread context satisfies
+# lltdLoop's precondition" - was built and could not be decided: out of memory at 24 GB with CBMC's safety checks, with and without DFCC,
+# and no result within 900 s with the checks off and the constructors replaced by their contracts; see DESIGN.md section 4, C01)
+_HANDLERS = ["send_probe", "parse_emit", "parse_emit_strict"] + _EMIT_SMALL + [ "parse_probe", "parse_query", "parse_query_mtu60", "parse_query_mtu72",
              "parse_query_mtu80", "parse_query_mtu93", "parse_query_symmtu", "send_ltr", "parse_qlt"]
 _FRAME_PATH = ["parse_frame"] + _HELLO_ALL + _HANDLERS
 _H1 = [_HELLO_QUICK[0]]          # one Hello instance where the Hello-specific clauses are not the point (quick tier)
@@ -199,34 +228,41 @@ H("parse_query_symmtu", src="h_probe_query.c", fn="h_parse_query", props=_PQ, en
   must_reach=["end", "answered", "overflow", "tx"], shards=4,
   bounded="symbolic small MTU 54..135 (every residue of (MTU-34) mod 20, capacity 1..5) with an over-sized transmit object whose writes are checked against the requested size; outside the property's MTU range, code uniform in MTU")
 PROPS = {
-    "C01": {"harnesses": _FRAME_PATH + ["tlv_writers", "wire_headers", "derive", "derive_oob", "esp32_frame", "map_step", "sess_step", "enum_step", "tick"],
-            "harnesses_quick": ["parse_frame"] + _H1 + _HANDLERS + ["tlv_writers", "wire_headers", "derive_oob", "esp32_frame", "map_step", "sess_step", "enum_step"]},
-    "C02": {"harnesses": _FRAME_PATH + ["tlv_writers", "wire_headers", "wire_headers_be"],
-            "harnesses_quick": ["parse_frame"] + _HELLO_QUICK[:2] + _HANDLERS + ["tlv_writers", "wire_headers", "wire_headers_be"]},
-    "C09": {"harnesses": ["parse_frame", "state_for_iface", "state_clear"],
+    "C01": {"harnesses": _FRAME_PATH + ["tlv_writers", "wire_headers", "derive", "derive_oob", "esp32_frame", "linux_fill", "linux_loop", "map_step", "sess_step", "enum_step", "tick"],
+            "harnesses_quick": ["parse_frame"] + _H1 + _HANDLERS + ["tlv_writers", "wire_headers", "derive_oob", "esp32_frame", "linux_fill", "linux_loop", "map_step", "sess_step", "enum_step"]},
+    "C02": {"harnesses": _FRAME_PATH + ["tlv_writers", "tlv_determinism", "hello_gate", "wire_headers", "wire_headers_be"],
+            "harnesses_quick": ["parse_frame"] + _HELLO_QUICK[:2] + _HANDLERS + ["tlv_writers", "tlv_determinism", "wire_headers", "wire_headers_be"]},
+    "C09": {"harnesses": ["parse_frame", "state_for_iface", "state_clear", "parse_probe", "parse_query", "parse_qlt", "send_ltr", "parse_emit", "send_probe"] + _H1,
+            # second half of the argument: every handler's outputs are pinned by its contract as a function of the KNOWN fields of the
+            # record, the frame and the configuration - proved with every other byte of the record arbitrary, so a hidden field that
+            # survives a Reset and influences a later answer fails a handler clause.  Those clauses are adopted by C09.
+            "adopt": {"harnesses": ["parse_probe", "parse_query", "parse_qlt", "send_ltr", "parse_emit", "send_probe"] + _H1,
+                      "props": ["C02", "C03", "C06", "C07", "C08", "C10"]},
             "explanation": "Reset arm and record creation are proved here; the determinism of every handler's outputs in (record, frame, configuration) is what the handler contracts proved under C03/C06/C07/C08 state"},
-    "C17": {"harnesses": ["parse_frame", "send_probe", "parse_probe", "parse_query", "parse_qlt", "tlv_writers", "state_for_iface"] + _H1,
-            "harnesses_quick": ["parse_frame", "send_probe", "parse_probe", "parse_query", "parse_qlt", "state_for_iface"],
+    "C17": {"harnesses": ["parse_frame", "send_probe", "parse_probe", "parse_query", "parse_qlt", "tlv_writers", "state_for_iface", "linux_loop"] + _H1,
+            "harnesses_quick": ["parse_frame", "send_probe", "parse_probe", "parse_query", "parse_qlt", "state_for_iface", "linux_loop"],
             "extra_steps": [closure.core_globals]},
     "C19": {"harnesses": _FRAME_PATH + ["ctor_mapping", "ctor_enum", "ctor_session", "tab_create", "state_for_iface", "state_clear"],
             "harnesses_quick": ["parse_frame"] + _H1 + _HANDLERS + ["ctor_mapping", "ctor_enum", "ctor_session", "tab_create", "state_for_iface", "state_clear"]},
     "C20": {"harnesses": [], "extra_steps": [closure.core_closure], "level": "other",
             "explanation": "closure condition of the modular proof: the linked core's undefined functions are exactly port-API functions (goto level and, for every compiler x optimisation x hosted/freestanding setting of the property, object level); the repository's own lint rule; no system header beyond the freestanding set",
             "technique": "closure check of the contract proof: undefined-function set of the linked core (goto-instrument, nm over the stated compiler matrix) compared with the functions declared in lltdPort.h; DFCC additionally fails any call to a function with neither body nor contract"},
-    "C04": {"harnesses": ["tlv_writers", "tlv_writers_be", "wire_headers_be", "linux_getters"] + _HELLO_ALL},
+    "C04": {"harnesses": ["tlv_writers", "tlv_writers_be", "wire_headers_be", "linux_getters", "hello_gate"] + _HELLO_ALL},
     "C03": {"harnesses": _HELLO_ALL + ["wire_headers", "parse_frame"]},
-    "C05": {"harnesses": ["parse_frame"]},
+    "C05": {"harnesses": ["parse_frame", "parse_emit", "parse_query", "parse_qlt"] + _H1,
+            "explanation": "parseFrame is proved with the handlers replaced by their contracts; the mapper clauses of those contracts (C05.emit-state, C05.query-mapper, C05.qlt-state, C05.hello-state) are proved on the handlers here"},
     "C08": {"harnesses": ["send_ltr", "parse_qlt", "c08_reassembly"]},
     "C07": {"harnesses": ["parse_probe", "parse_query", "parse_query_mtu60", "parse_query_mtu72", "parse_query_mtu80", "parse_query_mtu93", "parse_query_symmtu"]},
-    "C06": {"harnesses": ["send_probe", "parse_emit", "parse_emit_strict"]},
+    "C06": {"harnesses": ["send_probe", "parse_emit", "parse_emit_strict", "parse_frame"] + _EMIT_SMALL,
+            "explanation": "sendProbeMsg and parseEmit against their contracts; the exact-count clause on small-frame instances where a maximum-size Emit is reachable; the dispatcher clause C06.emit-dispatched (parseFrame hands the active mapper's Emit to parseEmit)"},
     "C10": {"harnesses": ["send_probe", "parse_emit_strict", "parse_probe", "c10_peer"]},
     "C11": {"harnesses": ["derive"]},
     "C16": {"harnesses": ["tab_find", "tab_add", "tab_remove", "tab_update", "tab_queries", "tab_clear", "tab_create", "tab_nullargs", "tick"]},
     "C14": {"harnesses": ["map_step", "tick", "mt_reset_charge", "mt_on_charge", "mt_check_charge", "mt_check_inactive", "mt_reset_inactive"]},
     "C12": {"harnesses": ["tick", "enum_step"]},
     "C15": {"harnesses": ["sess_step"]},
-    "C18": {"harnesses": ["ctor_mapping", "ctor_enum", "ctor_session", "tab_create", "state_for_iface"] + [h for h in _FRAME_PATH if h != "parse_emit_strict"],
-            "harnesses_quick": ["ctor_mapping", "ctor_enum", "ctor_session", "tab_create", "state_for_iface", "parse_frame"] + _H1 + [h for h in _HANDLERS if h != "parse_emit_strict"]},
+    "C18": {"harnesses": ["ctor_mapping", "ctor_enum", "ctor_session", "tab_create", "state_for_iface", "esp32_frame", "linux_fill"] + [h for h in _FRAME_PATH if h != "parse_emit_strict"],
+            "harnesses_quick": ["ctor_mapping", "ctor_enum", "ctor_session", "tab_create", "state_for_iface", "esp32_frame", "linux_fill", "parse_frame"] + _H1 + [h for h in _HANDLERS if h != "parse_emit_strict"]},
     "C13": {
         "harnesses": ["band_update", "band_choose", "band_dohello", "band_heard", "band_init", "c13_monotone", "tick"],
         "explanation": "band_* functions enforced against contracts whose postconditions are the closed forms of "
